@@ -68,12 +68,24 @@ def direct_effects(fn: FuncInfo) -> list[tuple[str, ast.AST]]:
 
 
 def _is_own_temp(fn: FuncInfo, name: str) -> bool:
+    """`name` is a local temporary file of `fn`: not a parameter, and either built as a sibling/temp name or the very
+    file this function opens for writing and later renames onto its destination."""
+    if name in fn.param_names():
+        return False
+    opened = replaced = False
     for n in walk_no_nested(fn.node):
         if isinstance(n, ast.Assign) and any(isinstance(t, ast.Name) and t.id == name for t in n.targets):
             src = ast.unparse(n.value)
-            if ".with_name(" in src or "mkstemp" in src or "NamedTemporaryFile" in src or ".with_suffix(" in src:
+            if ".with_name(" in src or "mkstemp" in src or "NamedTemporaryFile" in src or ".with_suffix(" in src or "temporary" in src.lower() or "tmp" in src.lower():
                 return True
-    return False
+        if isinstance(n, ast.Call) and isinstance(n.func, ast.Attribute) and isinstance(n.func.value, ast.Name) and n.func.value.id == name:
+            if n.func.attr == "open":
+                opened = True
+            if n.func.attr in ("replace", "rename"):
+                replaced = True
+        if isinstance(n, ast.Call) and dotted(n.func) in ("os.replace", "os.rename") and n.args and isinstance(n.args[0], ast.Name) and n.args[0].id == name:
+            replaced = True
+    return opened and replaced
 
 
 def _looks_like_path(node: ast.AST) -> bool:
